@@ -10,6 +10,9 @@ WriteAlphabet ==
     \A ls \in LoopSteps : \A m \in Alphabet(ls) :
         CSVWrite("%1$s", <<ToJson([step |-> ls.id, name |-> m.name, c |-> m.c])>>, "alphabet.ndjson")
 ASSUME WriteAlphabet
+\* the world the sequences are stated in (always the 4-seat world, in both tiers)
+ASSUME CSVWrite("%1$s", <<ToJson([n |-> N, owner |-> Owner, outsider |-> Outsider, wires |-> WireIndexes])>>,
+                "loopworld.ndjson")
 
 \* every delivered prefix is a behaviour: the harness replays it on the real
 \* loop and compares what the loop kept at the end
